@@ -281,6 +281,7 @@ fn run_sequence(rt: &tokio::runtime::Runtime, seq: &[Op], refresh_plan: &[bool],
     // services whose process died on its own and that no manager operation or refresh has looked at since:
     // their record is legitimately stale until then
     let mut stale: BTreeSet<String> = BTreeSet::new();
+    let mut ever_orphan: BTreeSet<String> = BTreeSet::new();
     for (step, op) in seq.iter().enumerate() {
         let calls_before = os.0.lock().expect("os").calls;
         // antctl commands refresh the registry first; the daemon's control path (rpc.rs) and library users do not
@@ -363,8 +364,11 @@ fn run_sequence(rt: &tokio::runtime::Runtime, seq: &[Op], refresh_plan: &[bool],
             "processes": procs.iter().map(|(p, pid)| format!("{}={pid}", p.file_name().and_then(|f| p.parent().and_then(|d| d.file_name()).map(|d| format!("{}/{}", d.to_string_lossy(), f.to_string_lossy()))).unwrap_or_default())).collect::<Vec<_>>()}));
         if let (Some(idx), Ok(())) = (target, &result) {
             // the manager has just dealt with this service successfully: its record must be accurate again
-            // (an operation that failed may not have been able to look at the process at all)
-            stale.remove(&registry.nodes[idx].service_name);
+            // (an operation that failed may not have been able to look at the process at all, and an upgrade
+            // that finds nothing to do returns Ok without looking)
+            if label != "upgrade" {
+                stale.remove(&registry.nodes[idx].service_name);
+            }
         }
         // a failed start / upgrade that nevertheless left the process alive
         if let Some(idx) = target {
@@ -373,9 +377,16 @@ fn run_sequence(rt: &tokio::runtime::Runtime, seq: &[Op], refresh_plan: &[bool],
             if (label == "start" || label == "upgrade") && procs.contains_key(&node.antnode_path) && node.status != ServiceStatus::Running {
                 orphans.insert(node.service_name.clone());
             }
+            // ... also when the record still shows an older (dead) process as running
+            if (label == "start" || label == "upgrade") && result.is_err() && procs.get(&node.antnode_path).is_some_and(|p| Some(*p) != node.pid) {
+                orphans.insert(node.service_name.clone());
+            }
         }
         orphans.retain(|name| registry.nodes.iter().any(|x| &x.service_name == name && procs.contains_key(&x.antnode_path)));
+        ever_orphan.extend(orphans.iter().cloned());
+        // "came back" is a lasting consequence of the orphan process (it stays recorded after that process has died too)
         let tag = |name: &String| if orphans.contains(name) { ":process-left-by-failed-start" } else { "" };
+        let tag_sticky = |name: &String| if orphans.contains(name) || ever_orphan.contains(name) { ":process-left-by-failed-start" } else { "" };
         // ---- oracle
         for node in &registry.nodes {
             if node.status == ServiceStatus::Running && !stale.contains(&node.service_name) {
@@ -383,15 +394,21 @@ fn run_sequence(rt: &tokio::runtime::Runtime, seq: &[Op], refresh_plan: &[bool],
                     Some(pid) if Some(*pid) == node.pid => {}
                     live => {
                         let newly = !running_before.contains(&node.service_name);
+                        let left_by_failed_start = live.is_some() && orphans.contains(&node.service_name);
+                        if left_by_failed_start {
+                            // the live process is the one a failed start left behind; the record still names its dead predecessor
+                            viol.push(("recorded-pid-is-not-the-live-process:process-left-by-failed-start".into(), format!("step {step} ({label}): {} is recorded Running with pid {:?}, the live process {live:?} was left by a start that failed", node.service_name, node.pid)));
+                        } else {
                         viol.push((
                             format!("recorded-running-without-matching-process:{label}{}", if result.is_err() { ":after-failed-op" } else { "" }),
                             format!("step {step} ({label} -> {}): {} is recorded Running with pid {:?} but the live process is {live:?} (newly recorded: {newly})", if result.is_ok() { "ok" } else { "err" }, node.service_name, node.pid),
                         ));
+                        }
                     }
                 }
             }
             if removed_names.contains(&node.service_name) && node.status != ServiceStatus::Removed {
-                viol.push((format!("removed-service-came-back{}", tag(&node.service_name)), format!("step {step} ({label}): {} had been removed and is now {:?}", node.service_name, node.status)));
+                viol.push((format!("removed-service-came-back{}", tag_sticky(&node.service_name)), format!("step {step} ({label}): {} had been removed and is now {:?}", node.service_name, node.status)));
             }
         }
         if let (Some(idx), Ok(())) = (target, &result) {
